@@ -125,6 +125,49 @@ func runC20On(r *Run, rng *Rng, thorough bool, d *ClaimsDesc, first bool) {
 			}
 		}
 	}
+	// the same buffer presented again after it was changed in place: an Evidence decodes what the buffer holds now
+	{
+		ev := &psa.Evidence{}
+		buf := append([]byte{}, tok...)
+		if err := ev.UnmarshalCOSE(buf); err == nil {
+			type corr struct {
+				what string
+				f    func(b []byte)
+			}
+			for _, cr := range []corr{
+				{"tag 18 turned into tag 17 (COSE_Mac0)", func(b []byte) { b[0] = 0xd1 }},
+				{"tag turned into an array head (untagged)", func(b []byte) { b[0] = 0x81 }},
+				{"array of four turned into an array of five", func(b []byte) { b[1] = 0x85 }},
+				{"protected header bytes changed", func(b []byte) { b[3] ^= 0x01 }},
+				{"all bytes zero", func(b []byte) {
+					for i := range b {
+						b[i] = 0
+					}
+				}},
+				{"last signature byte changed", func(b []byte) { b[len(b)-1] ^= 0xff }},
+			} {
+				copy(buf, tok)
+				if ev.UnmarshalCOSE(buf) != nil {
+					break
+				}
+				cr.f(buf)
+				fresh := "reject"
+				if _, err := psa.DecodeEvidenceFromCOSE(append([]byte{}, buf...)); err == nil {
+					fresh = "accept"
+				}
+				again := "reject"
+				if err := ev.UnmarshalCOSE(buf); err == nil {
+					again = "accept"
+				}
+				r.ImplOnly("same-buffer-again", false, "same-buffer-again "+cr.what)
+				if again != fresh {
+					r.Fail("accepts-only-sign1", fmt.Sprintf("%s in place, same buffer presented again to the Evidence that had decoded it: %s (a fresh Evidence: %s)", cr.what, again, fresh))
+				} else if again == "accept" && cr.what == "last signature byte changed" && ev.Verify(ks[0].pub) == nil {
+					r.Fail("accepts-only-sign1", "the Evidence verifies although the signature bytes in the buffer it decoded were changed")
+				}
+			}
+		}
+	}
 	good := []*Node{nBstr(prot), nMap(), nBstr(payload), nBstr(sig)}
 	body := func() *Node { return nArr(good[0].clone(), good[1].clone(), good[2].clone(), good[3].clone()) }
 	// every tag 0..30 and none; other tags
